@@ -437,7 +437,24 @@ impl MqttState {
     }
 
     fn handle_incoming_pubcomp(&mut self, pubcomp: &PubComp) -> Result<Option<Packet>, StateError> {
+        if !self.outgoing_rel.contains(pubcomp.pkid as usize) {
+            error!("Unsolicited pubcomp packet: {:?}", pubcomp.pkid);
+            return Err(StateError::Unsolicited(pubcomp.pkid));
+        }
+        self.outgoing_rel.set(pubcomp.pkid as usize, false);
+        self.inflight -= 1;
+
+        if pubcomp.reason != PubCompReason::Success {
+            warn!(
+                "PubComp Pkid = {:?}, reason: {:?}",
+                pubcomp.pkid, pubcomp.reason
+            );
+        }
+
         let outgoing = self.check_collision(pubcomp.pkid).map(|publish| {
+            self.outgoing_pub[publish.pkid as usize] = Some(publish.clone());
+            self.inflight += 1;
+
             let pkid = publish.pkid;
             let event = Event::Outgoing(Outgoing::Publish(pkid));
             self.events.push_back(event);
@@ -446,21 +463,6 @@ impl MqttState {
             Packet::Publish(publish)
         });
 
-        if !self.outgoing_rel.contains(pubcomp.pkid as usize) {
-            error!("Unsolicited pubcomp packet: {:?}", pubcomp.pkid);
-            return Err(StateError::Unsolicited(pubcomp.pkid));
-        }
-        self.outgoing_rel.set(pubcomp.pkid as usize, false);
-
-        if pubcomp.reason != PubCompReason::Success {
-            warn!(
-                "PubComp Pkid = {:?}, reason: {:?}",
-                pubcomp.pkid, pubcomp.reason
-            );
-            return Ok(None);
-        }
-
-        self.inflight -= 1;
         Ok(outgoing)
     }
 
